@@ -501,6 +501,51 @@ def uncut_group_stream(rep, tier, r):
   return {'programs': n_prog, 'predicates_checked': checked, 'bad': bad}
 
 
+def two_iterative_stream(rep, tier, r):
+  """Two recursive components that are both executed iteratively (depth > 20), the second a ring of 2-4 predicates
+  sitting on top of the first: once converged within the depth, every member holds exactly its least fixpoint."""
+  import json as _json
+  n_prog = 4 if tier == 'quick' else 30
+  jobs, metas = [], []
+  for k in range(n_prog):
+    n = r.randint(6, 12)
+    ring = r.choice([2, 3, 3, 4]) if k else 3
+    names = ['P%s' % c for c in 'abcd'[:ring]]
+    first = r.choice(['Hop', 'Zhop'])       # sorts before or after the ring's members
+    d1, d2 = r.choice([21, 25, 30]), r.choice([30, 40])
+    lines = ['Next(x, x + 1) :- x in Range(%d);' % n, '@Recursive(%s, %d);' % (first, d1),
+             '%s(x) distinct :- x == 0;' % first, '%s(y) distinct :- %s(x), Next(x, y);' % (first, first),
+             'Edge(x, y) distinct :- %s(x), %s(y), y == x + 1;' % (first, first),
+             '@Recursive(%s, %d);' % (r.choice(names), d2), '%s(x) distinct :- x == 0;' % names[0]]
+    for i, nm in enumerate(names):
+      prev = names[i - 1]
+      lines.append('%s(y) distinct :- %s(x), Edge(x, y);' % (nm, prev))
+    r.shuffle(lines)
+    text = '@Engine("sqlite");\n' + '\n'.join(lines) + '\n'
+    jobs.append((text, names))
+    metas.append((n, ring, names))
+  with ProcessPoolExecutor(max_workers=3) as ex:
+    results = list(ex.map(run_real, jobs, chunksize=1))
+  checked = bad = 0
+  for (text, _), (n, ring, names), got in zip(jobs, metas, results):
+    # least fixpoint: Hop = 0..n, Edge = (x, x+1) for x < n, names[i] holds the y with y % ring == i
+    for i, nm in enumerate(names):
+      want = set((y,) for y in range(n + 1) if y % ring == i)
+      res = got.get(nm)
+      checked += 1
+      rows = set(tuple(_json.loads(x)) for x in res[1]) if res and res[0] == 'ok' else None
+      if rows != want:
+        bad += 1
+        if bad <= 3:
+          rep.violation('two-iterative-components:%s' % (res[0] if res and res[0] != 'ok' else 'rows'), {
+              'program_text': text, 'predicate': nm, 'expected_rows': len(want),
+              'observed': [res[0], (sorted(rows) if rows is not None else res[1])] if res else None,
+              'law': 'a recursive component whose depth suffices to converge holds its least fixpoint, also when another '
+                     'iteratively executed component is in the same program',
+              'how': 'props/c03.py run_real(program_text, [predicate]) (SQLite, Concertina), rows compared as sets'})
+  return {'programs': n_prog, 'predicates_checked': checked, 'bad': bad}
+
+
 def preds_of(case):
   return list(SHAPES[case['shape']].members)
 
@@ -543,8 +588,9 @@ def run(tier, replay=None):
   found = 0
   multi = multi_component_stream(rep, tier, r) if not replay else {}
   uncut = uncut_group_stream(rep, tier, r) if not replay else {}
+  two_iter = two_iterative_stream(rep, tier, r) if not replay else {}
   stats = {'ok': 0, 'known': 0, 'bad': 0, 'by_shape': {}, 'by_depth': {}, 'iterative_plans': 0,
-           'multi_component': multi, 'uncut_group': uncut,
+           'multi_component': multi, 'uncut_group': uncut, 'two_iterative_components': two_iter,
            'matched': {}, 'run_s': round(time.time() - t0, 1)}
   for c, got in zip(cases, results):
     verdict, detail = judge(c, got)
